@@ -1,7 +1,7 @@
 #!/usr/bin/env python3
 """Run every registered check against every seeded change, in parallel worker copies of the repository
 (ECLI_REPO points each worker's checks at its own scratch worktree; /repo itself is never modified).
-Writes seeded/<id>/caught.txt and prints a summary. Usage: tools/seed_matrix.py [-j N] [seed ids...]"""
+Writes seeded/<id>/caught.txt and prints a summary. Usage: tools/seed_matrix.py [--dir equivalent] [--base N] [--checks own,Cxx,Cyy?] [-j N] [seed ids...]"""
 import json
 import os
 import subprocess
@@ -10,12 +10,14 @@ from concurrent.futures import ThreadPoolExecutor
 
 VERIF = os.path.dirname(os.path.dirname(os.path.abspath(__file__)))
 ALL = ["C%02d" % i for i in range(1, 18)]
+CHECKS = None       # --checks own,C17?,C09: a subset (own = the seed's property, Cxx? = only if caught.txt lists Cxx); results are merged
+BASE = 0            # first worktree slot (--base N: concurrent invocations use disjoint /tmp/mx-N)
 SUB = "seeded"      # or "equivalent": behaviour-preserving changes, on which no check may fire
 
 
 def run_seed(args):
     sid, slot = args
-    wt = "/tmp/mx-%d" % slot
+    wt = "/tmp/mx-%d" % (BASE + slot)
     d = os.path.join(VERIF, SUB, sid)
     subprocess.run(["git", "-C", wt, "checkout", "-q", "--", "."], check=False)
     subprocess.run(["git", "-C", wt, "clean", "-fdq"], check=False)
@@ -24,7 +26,30 @@ def run_seed(args):
         return sid, None, "patch does not apply: " + p.stderr[:200]
     env = dict(os.environ, ECLI_REPO=wt)
     fired = {}
-    for c in ALL:
+    todo = ALL
+    old = {}
+    if CHECKS is not None:
+        cpath = os.path.join(d, "caught.txt")
+        cur = None
+        if os.path.exists(cpath):
+            for l in open(cpath):
+                if l.startswith("C") and ": fires" in l:
+                    cur = l.split(":")[0]
+                    old[cur] = []
+                elif cur and l.startswith("    "):
+                    old[cur].append(l.strip())
+        todo = []
+        for t in CHECKS:
+            if t == "own":
+                t = sid[:3]
+            elif t.endswith("?"):
+                t = t[:-1]
+                if not any(k.startswith(t) for k in old):
+                    continue
+            if t not in todo:
+                todo.append(t)
+        fired = {k: v for k, v in old.items() if k[:3] not in todo}
+    for c in todo:
         q = subprocess.run([os.path.join(VERIF, "check"), c], capture_output=True, text=True, env=env)
         out = q.stdout + q.stderr
         n = sum(1 for l in out.splitlines() if l.startswith("VIOLATION"))
@@ -38,7 +63,7 @@ def run_seed(args):
             fired[c] = [l.strip()[:300] for l in out.splitlines() if "violation:" in l][:3]
     subprocess.run(["git", "-C", wt, "checkout", "-q", "--", "."], check=False)
     with open(os.path.join(d, "caught.txt"), "w") as f:
-        for c, ls in fired.items():
+        for c, ls in sorted(fired.items()):
             f.write("%s: fires\n" % c)
             for l in ls:
                 f.write("    %s\n" % l)
@@ -49,9 +74,15 @@ def run_seed(args):
 
 def main():
     argv = sys.argv[1:]
-    global SUB
+    global SUB, BASE, CHECKS
     if argv[:1] == ["--dir"]:
         SUB = argv[1]
+        argv = argv[2:]
+    if argv[:1] == ["--base"]:
+        BASE = int(argv[1])
+        argv = argv[2:]
+    if argv[:1] == ["--checks"]:
+        CHECKS = argv[1].split(",")
         argv = argv[2:]
     j = 4
     if argv[:1] == ["-j"]:
@@ -59,7 +90,7 @@ def main():
         argv = argv[2:]
     seeds = argv or sorted(d for d in os.listdir(os.path.join(VERIF, SUB)) if os.path.isdir(os.path.join(VERIF, SUB, d)))
     for s in range(j):
-        wt = "/tmp/mx-%d" % s
+        wt = "/tmp/mx-%d" % (BASE + s)
         if not os.path.isdir(wt):
             subprocess.run(["git", "-C", "/repo", "worktree", "add", "-q", "--detach", wt, "HEAD"], check=True)
     # evidence files are written by each check: keep the committed ones out of the way
@@ -80,7 +111,7 @@ def main():
         for sid, fired, err in ex.map(work, seeds):
             print("== %s: %s" % (sid, err or (" ".join(fired) if fired else "MISSED")), flush=True)
     for s in range(j):
-        subprocess.run(["git", "-C", "/repo", "worktree", "remove", "--force", "/tmp/mx-%d" % s], check=False)
+        subprocess.run(["git", "-C", "/repo", "worktree", "remove", "--force", "/tmp/mx-%d" % (BASE + s)], check=False)
 
 
 if __name__ == "__main__":
